@@ -188,6 +188,18 @@ def _tdm_array(values):
         return np.array([values], dtype=object)
 
 
+def _param_to_blackbird(a):
+    """Converts an operation parameter to the object representing it in a Blackbird operation."""
+    if sfpar.par_is_symbolic(a):
+        # SymPy object
+        if any(isinstance(x, sfpar.MeasuredParameter) for x in a.free_symbols):
+            # there are measured parameters in `a`
+            return blackbird.RegRefTransform(a)
+        # convert to string
+        return str(a)
+    return a
+
+
 def to_blackbird(prog: Program, version: str = "1.0") -> blackbird.BlackbirdProgram:
     """Convert a Strawberry Fields Program to a Blackbird Program.
 
@@ -200,8 +212,6 @@ def to_blackbird(prog: Program, version: str = "1.0") -> blackbird.BlackbirdProg
     """
     bb = blackbird.BlackbirdProgram(name=prog.name, version=version)
     bb._modes = set(prog.reg_refs.keys())
-
-    isMeasuredParameter = lambda x: isinstance(x, sfpar.MeasuredParameter)
 
     # not sure if this makes sense: the program has *already been* compiled using this target
     if prog.target is not None:
@@ -228,8 +238,8 @@ def to_blackbird(prog: Program, version: str = "1.0") -> blackbird.BlackbirdProg
                 op["kwargs"]["select"] = cmd.op.select
 
             if cmd.op.p:
-                # argument is quadrature phase (copied: the list is edited below for TDM programs)
-                op["args"] = list(cmd.op.p)
+                # argument is quadrature phase
+                op["args"] = [_param_to_blackbird(a) for a in cmd.op.p]
 
             if op["op"] == "MeasureFock":
                 # special case to take into account 'dark_counts' keyword argument
@@ -247,15 +257,7 @@ def to_blackbird(prog: Program, version: str = "1.0") -> blackbird.BlackbirdProg
                     )
                 params[0] = -params[0]
 
-            for a in params:
-                if sfpar.par_is_symbolic(a):
-                    # SymPy object, convert to string
-                    if any(map(isMeasuredParameter, a.free_symbols)):
-                        # check if there are any measured parameters in `a`
-                        a = blackbird.RegRefTransform(a)
-                    else:
-                        a = str(a)
-                op["args"].append(a)
+            op["args"] = [_param_to_blackbird(a) for a in params]
 
         # If program is a TDMProgram then add the looped-over arrays to the
         # blackbird program. `prog.loop_vars` are symbolic parameters (e.g.
